@@ -642,6 +642,12 @@ class Gen(object):
         op['cfg'] = self.rng.randrange(len(self.w.configs))
         return op
 
+    def g_export(self):
+        k, _ = self.pick(self.is_real, prefer=lambda o: o.n_frac == 0)
+        if k is None:
+            return self.g_new()
+        return {'op': 'export', 'slot': k, 'how': self.rng.choice(['array', 'array', 'array_copy', 'asarray_copy'])}
+
     def g_cont_mutate(self):
         if not self.w.containers:
             return self.g_cont_new()
@@ -694,6 +700,10 @@ class Gen(object):
             except ValueError:
                 return False
         if r.random() < 0.65:
+            if 'F2' in self.p.faults and r.random() < 0.08:
+                # fault F2: operands that do not broadcast - the operation is rejected before anything
+                # can be stored (into whatever register is configured or named)
+                compat = self.is_real
             kb, ib = self.pick(compat, prefer=self.small)
             if kb is None:
                 return self.g_new()
@@ -1235,6 +1245,7 @@ class Gen(object):
             add(2, self.g_store_cont, 'containers')
             add(2, self.g_cont_new, 'containers')
             add(1, self.g_cfg_new, 'containers')
+            add(1, self.g_export, 'containers')
             add(2, self.g_new_cfg, 'containers')
             if 'F6' in F:
                 add(1, self.g_cfg_mutate, 'containers')
@@ -1315,6 +1326,8 @@ class Gen(object):
                 add(5, self.g_provoke)
             if F & {'F3', 'F4', 'F8'}:
                 add(4, self.g_cb_arm)
+            if F & {'F3', 'F8'}:
+                add(2, self.g_probe_register_handler, 'derive_arith')
             if 'F1' in F:
                 add(2, lambda: self.g_config_set(['overflow', 'rounding', 'shifting']))
             if 'F5' in F:
@@ -1342,6 +1355,8 @@ class Gen(object):
             if F & {'F3', 'F4'}:
                 add(2, self.g_cb_attach)
                 add(3, self.g_cb_arm)
+            if 'F3' in F:
+                add(2, self.g_probe_aborted_resize_then_convert)
             if 'F1' in F:
                 add(1, lambda: self.g_config_set(['overflow', 'rounding']))
         return t
@@ -1454,11 +1469,115 @@ class Gen(object):
         self.on_last(lambda: self.g_new_from(), None)
         return op
 
+    def g_probe_aborted_resize_then_convert(self):
+        """Fault F3 aimed: an object whose resize is aborted by its own overflow / underflow handler
+        (raised BEFORE the store: new sizes over old codes), then a conversion between that object and
+        one that still has its old format - in either direction, by an indexed assignment."""
+        r = self.rng
+        nw = r.randint(5, 16)
+        old = [r.random() < 0.6, nw, r.randint(1, nw - 2)]
+        x_is_array = False       # (the stale object is only ever a source: see engine, source_only)
+        op1 = self.g_new(fmt=old, arr=x_is_array, ncb=1, val_kind=r.choice(['hi', 'near_hi', 'lo', 'near_lo', 'hi']))
+        op1['kw'] = {k: v for k, v in op1['kw'].items() if k in ('rounding', 'overflow')}
+        op1.pop('dtype', None)
+        st = {}
+
+        def kx():
+            return self.cands().index(st['x']) if st.get('x') in self.cands() else None
+
+        def arm():
+            st['x'] = self.hot[0] if self.hot else None
+            k = kx()
+            if k is None:
+                return self.g_call()
+            return {'op': 'cb_arm', 'slot': k, 'k': 0, 'raise': True,
+                    'site': r.choice(['on_status_overflow', 'on_status_underflow'])}
+
+        def resize():
+            k = kx()
+            if k is None:
+                return self.g_call()
+            d = r.randint(1, 4)
+            return {'op': 'resize', 'slot': k, 'fmt': r.choice([[None, None, old[2] + d], [not old[0], None, old[2] + d],
+                                                               [None, None, old[2] + d]])}
+
+        def other():
+            return self.g_new(fmt=old, arr=not x_is_array, ncb=0, val_kind='exact')
+
+        def convert():
+            k = kx()
+            y = self.hot[0] if self.hot else None
+            if k is None or y not in self.cands() or y == st['x']:
+                return self.g_call()
+            ky = self.cands().index(y)
+            if x_is_array:
+                return {'op': 'setitem_from', 'slot': k, 'src': ky, 'index': 0}       # stale[i] = other
+            return {'op': 'setitem_from', 'slot': ky, 'src': k, 'index': 0}           # other[i] = stale
+        self.queue.extend([arm, resize, other, convert])
+        return op1
+
+    def g_probe_register_handler(self):
+        """Faults F3 / F7 / F8 aimed at a RESULT REGISTER: an operand that carries the inaccuracy flag, a
+        register with a handler of its own armed at one site (it raises, resets the register, writes to
+        it, or unregisters itself), then an arithmetic operation or a reduction landing in that register
+        (out=, or config.op_out through the operator)."""
+        r = self.rng
+        F = set(self.p.faults)
+        nw = r.randint(4, 12)
+        fa = [r.random() < 0.7, nw, r.randint(1, nw - 1)]
+        arr = r.random() < 0.4
+        op1 = self.g_new(fmt=fa, arr=arr, ncb=0, val_kind=r.choice(['inexact', 'inexact', 'exact']))
+        st = {}
+
+        def idx(key):
+            c = self.cands()
+            return c.index(st[key]) if st.get(key) in c else None
+
+        def reg():
+            st['a'] = self.hot[0] if self.hot else None
+            w2 = min(52, nw + r.randint(0, 8))
+            return self.g_new(fmt=[fa[0], w2, r.randint(0, min(w2 - 1, fa[2] + 2))], arr=False, ncb=r.choice([1, 1, 2]),
+                              val_kind='exact')
+
+        def arm():
+            st['r'] = self.hot[0] if self.hot else None
+            k = idx('r')
+            if k is None:
+                return self.g_call()
+            op = {'op': 'cb_arm', 'slot': k, 'k': r.randrange(2), 'site': r.choice(SITES)}
+            kinds = ['unregister']
+            if 'F8' in F and self.p.prop == 'C04':
+                kinds += ['selfreset', 'selfreset', 'selfwrite']
+            if 'F3' in F:
+                kinds += ['raise', 'raise']
+            kind = r.choice(kinds)
+            if kind == 'selfwrite':
+                o = self.w.slots[st['r']].obj
+                op['selfwrite'] = self.val_like_obj(o, kind=r.choice(['hi+', 'inexact', 'exact', None]))
+                op['via'] = r.choice(['call', 'set_val'])
+            else:
+                op[kind] = True
+            return op
+
+        def use():
+            ka, kr = idx('a'), idx('r')
+            if ka is None or kr is None:
+                return self.g_call()
+            f = r.choice(['add', 'sub', 'mul', 'add', 'truediv'])
+            if arr and r.random() < 0.3:
+                return {'op': 'reduce', 'f': r.choice(['sum', 'max', 'min', 'cumsum']), 'a': ka, 'route': 'fn', 'out': kr}
+            b = {'slot': ka} if r.random() < 0.4 else {'val': ['i', r.randint(1, 3)]}
+            return {'op': 'arith', 'f': f, 'a': ka, 'b': b, 'route': r.choice(['fn', 'fn', 'np']), 'out': kr}
+        self.queue.extend([reg, arm, use])
+        return op1
+
     def g_chain2(self):
         """Two ordinary steps in a row on the same object."""
         t = getattr(self, '_table', None) or self.table()
         fns = [fn for _, fn in t if getattr(fn, '__name__', '') not in ('g_chain2', 'g_probe_shift',
-                                                                          'g_probe_bigstore_then_convert')]
+                                                                          'g_probe_bigstore_then_convert',
+                                                                          'g_probe_aborted_resize_then_convert',
+                                                                          'g_probe_register_handler')]
         a, b = self.rng.choice(fns), self.rng.choice(fns)
         op = a()
         self.on_last(b)
